@@ -14,16 +14,87 @@ States are the generator's integers 0..n-1, actions its integer ids.
 A case is either a single problem ({"mdp": ...}) or a CHAIN ({"chain": [mdpA, mdpB, mdpA, ...]}):
 ONE planner object plans on the problems in turn (same state/action labels, different
 probabilities/rewards); the result is {"chain": [result per step]}.  Log state is reset per call.
+Equal chain entries reuse the SAME MDP object (optionally with its cached tabular views touched first).
+
+Input representations (case["repr"], all optional): state/action LABELS (ints, strings whose sorted
+order differs from the index order, tuples, falsy values "" () 0), next-state distributions as
+DictDistribution / deterministic / uniform objects, action containers list vs tuple, initial
+distribution as object / callable / initial_state=, discount and margin as int, heuristic returning
+ints; planner options seed=None, no event listener, max_trial_length, tiny iteration caps.
+Everything is reported back in the generator's integer ids.
 """
 import os, sys
 sys.path.insert(0, os.path.dirname(os.path.abspath(__file__)))
 from build import *
 
 
+def labels(scheme, n, nA):
+    if scheme == "str":            # sorted order is the reverse of the index order
+        return [chr(122 - i) for i in range(n)], ["c", "b", "a"][:nA] if nA <= 3 else ["a%d" % (9 - a) for a in range(nA)]
+    if scheme == "tuple":
+        return [(i % 2, -i) for i in range(n)], [("a", -a) for a in range(nA)]
+    if scheme == "falsy":          # "", (), 0 as state labels; "", 0, () as action labels
+        return (["", (), 0] + ["s%d" % i for i in range(3, n)])[:n], (["", 0, ()] + ["a%d" % a for a in range(3, nA)])[:nA]
+    return list(range(n)), list(range(nA))
+
+
+def build_labeled(mc, rp):
+    """QuickTabularMDP from a gen_mdp case through the public constructor, in the requested representation"""
+    from msdm.core.mdp.quickmdp import QuickTabularMDP
+    from msdm.core.distributions import DictDistribution
+    from fractions import Fraction
+    n, nA = mc["n"], mc["nA"]
+    sl, al = labels(rp.get("labels", "int"), n, nA)
+    objs = rp.get("dist_objects", False)
+    trans = {}
+    for k, row in mc["trans"].items():
+        s, a = map(int, k.split(","))
+        ps = [Fraction(p) for _, p in row]
+        if objs and len(row) == 1 and ps[0] == 1:
+            d = DictDistribution.deterministic(sl[row[0][0]])
+        elif objs and len(row) > 1 and all(p == ps[0] for p in ps) and float(1 / len(row)) == float(ps[0]):
+            d = DictDistribution.uniform([sl[ns] for ns, _ in row])
+        else:
+            d = DictDistribution({sl[ns]: fl(p) for ns, p in row})
+        trans[(sl[s], al[a])] = d
+    rew = {}
+    for k, r in mc["reward"].items():
+        s, a, ns = map(int, k.split(","))
+        rew[(sl[s], al[a], sl[ns])] = fl(r)
+    cont = tuple if rp.get("actions_tuple", True) else list
+    actions = {sl[s]: cont(al[a] for a in mc["actions"][s]) for s in range(n)}
+    absorbing = {sl[s]: bool(mc["absorbing"][s]) for s in range(n)}
+    init = DictDistribution({sl[s]: fl(p) for s, p in mc["init"]})
+    g = Fraction(mc["gamma"])
+    kw = {}
+    irep = rp.get("init", "object")
+    if irep == "initial_state" and len(mc["init"]) == 1:
+        kw["initial_state"] = sl[mc["init"][0][0]]
+    elif irep == "callable":
+        kw["initial_state_dist"] = lambda: init
+    else:
+        kw["initial_state_dist"] = init
+    mdp = QuickTabularMDP(
+        next_state_dist=lambda s, a: trans[(s, a)],
+        reward=lambda s, a, ns: rew.get((s, a, ns), (0 if rp.get("int_numbers") else 0.0)),
+        actions=lambda s: actions[s],
+        is_absorbing=lambda s: absorbing[s],
+        discount_rate=(int(g) if rp.get("int_numbers") and g.denominator == 1 else float(g)),
+        **kw)
+    return mdp, sl, al
+
+
 def one(case, pl):
     from msdm.algorithms.lrtdp import LRTDP, LRTDPEventListener
+    from fractions import Fraction
     mdps = case["chain"] if "chain" in case else [case["mdp"]]
+    rp = case.get("repr", {})
     hv = [fl(x) for x in case["heuristic"]]
+    if rp.get("int_numbers"):
+        hv = [int(x) if float(x).is_integer() else x for x in hv]
+    sl0, al0 = labels(rp.get("labels", "int"), mdps[0]["n"], mdps[0]["nA"])
+    sidx = {lab: i for i, lab in enumerate(sl0)}
+    hidx = {lab: hv[i] for i, lab in enumerate(sl0)}
     L = {}                       # per-plan_on log state (reset before every call)
 
     class Rec(LRTDPEventListener):
@@ -33,9 +104,15 @@ def one(case, pl):
         def end_of_lrtdp_timestep(self, localvars):
             L["counters"]["steps"] += 1
 
-    planner = LRTDP(heuristic=lambda s: hv[s], bellman_error_margin=fl(case["margin"]),
+    mg = Fraction(case["margin"])
+    kwargs = {}
+    if rp.get("max_trial_length") is not None:
+        kwargs["max_trial_length"] = int(rp["max_trial_length"])
+    planner = LRTDP(heuristic=lambda s: hidx[s],
+                    bellman_error_margin=(int(mg) if rp.get("int_numbers") and mg.denominator == 1 else float(mg)),
                     iterations=int(case["iterations"]), randomize_action_order=bool(case["randomize"]),
-                    event_listener_class=Rec, seed=int(case["seed"]))
+                    event_listener_class=(None if rp.get("no_listener") else Rec),
+                    seed=(None if rp.get("seed_none") else int(case["seed"])), **kwargs)
     maxops = int(case.get("max_log", 4000))
 
     def emit(op):
@@ -49,7 +126,7 @@ def one(case, pl):
         for s, v in list(planner.res.solved.items()):
             if v and s not in L["known"]:
                 L["known"].add(s)
-                emit(["A", s])
+                emit(["A", sidx[s]])
 
     orig_update = planner._bellman_update
     orig_check = planner._check_solved
@@ -58,23 +135,24 @@ def one(case, pl):
     def upd(m, s):
         sync_absorbing()
         orig_update(m, s)
-        emit(["U", s, fj(planner.res.V[s])])
+        emit(["U", sidx[s], fj(planner.res.V[s])])
 
     def chk(m, s):
         sync_absorbing()
         ops = L["ops"]
         before = list(planner.res.solved.keys())
         mark = len(ops)
-        emit(["C", s, None, None])
+        emit(["C", sidx[s], None, None])
         flag = orig_check(m, s)
         if flag:
             closed = [k for k in planner.res.solved.keys() if k not in before]
             for k in closed:
                 L["known"].add(k)
+            closed = [sidx[k] for k in closed]
         else:
             closed = [o[1] for o in ops[mark + 1:] if o[0] == "U"][::-1]
         if mark < len(ops):
-            ops[mark] = ["C", s, bool(flag), closed]
+            ops[mark] = ["C", sidx[s], bool(flag), closed]
         return flag
 
     def teardown(m, heuristic):
@@ -82,42 +160,58 @@ def one(case, pl):
         res = planner.res
         # greedy action recomputed from the FINAL table for the states the planner labelled
         # (only states with a recorded action order: no extra random draws)
-        L["greedy"] = {s: planner.policy(m, s) for s in range(L["n"])
+        L["greedy"] = {s: planner.policy(m, s) for s in L["sl"]
                        if res.solved[s] and s in res.action_orders}
         return orig_teardown(m, heuristic)
+
+    orig_trial = planner.lrtdp_trial
+
+    def trial(m, s):
+        L["ntrials"] += 1
+        return orig_trial(m, s)
 
     planner._bellman_update = upd
     planner._check_solved = chk
     planner._tear_down_plan_on = teardown
+    planner.lrtdp_trial = trial
 
     outs = []
+    built = []                   # equal chain entries reuse the SAME MDP object
     for mc in mdps:
-        mdp = build_mdp(mc)
-        n = mc["n"]
+        prev = next((b for b in built if b[0] == mc), None)
+        if prev is not None:
+            mdp, sl, al = prev[1:]
+        else:
+            mdp, sl, al = build_labeled(mc, rp)
+            built.append((mc, mdp, sl, al))
+            if rp.get("touch_views"):          # a base object whose cached tabular views were used already
+                _ = (mdp.state_list, mdp.action_list, mdp.transition_matrix, mdp.absorbing_state_vec)
+        n, nA = mc["n"], mc["nA"]
+        aidx = {lab: a for a, lab in enumerate(al)}
         L.clear()
-        L.update({"ops": [], "known": set(), "overflow": False, "greedy": {}, "n": n,
+        L.update({"ops": [], "known": set(), "overflow": False, "greedy": {}, "n": n, "sl": sl, "ntrials": 0,
                   "counters": {"trials": 0, "steps": 0}})
         res = planner.plan_on(mdp)
-        keys = [s for s in range(n) if s in res.V]
+        keys = [i for i in range(n) if sl[i] in res.V]
         returned = []
-        for s in range(n):
-            d = [(a, pr) for a, pr in res.policy.action_dist(s).items() if pr != 0]
-            returned.append(d[0][0] if len(d) == 1 else None)
+        for i in range(n):
+            d = [(a, pr) for a, pr in res.policy.action_dist(sl[i]).items() if pr != 0]
+            returned.append(aidx[d[0][0]] if len(d) == 1 else None)
         sa = getattr(res, "solved_action", None)
         outs.append({
             "n": n,
-            "touched": [s in res.V for s in range(n)],
-            "V": [fj(res.V[s]) for s in range(n)],            # default = heuristic for untouched states
-            "solved": [bool(res.solved[s]) for s in range(n)],
-            "action_orders": {str(s): list(v) for s, v in res.action_orders.items()},
-            "greedy": {str(s): a for s, a in L["greedy"].items()},           # recomputed from the FINAL table
+            "touched": [sl[i] in res.V for i in range(n)],
+            "V": [fj(res.V[sl[i]]) for i in range(n)],            # default = heuristic for untouched states
+            "solved": [bool(res.solved[sl[i]]) for i in range(n)],
+            "action_orders": {str(sidx[s]): [aidx[a] for a in v] for s, v in res.action_orders.items()},
+            "greedy": {str(sidx[s]): aidx[a] for s, a in L["greedy"].items()},   # recomputed from the FINAL table
             "returned_action": returned,                                     # what res.policy plays (None: not deterministic)
-            "solved_action": None if sa is None else {str(s): a for s, a in sa.items()},
-            "Q": {str(s): {str(a): fj(res.Q[s][a]) for a in mdp.actions(s)} for s in keys},
-            "policy": [[[a, fj(p)] for a, p in res.policy.action_dist(s).items()] for s in range(n)],
+            "solved_action": None if sa is None else {str(sidx[s]): aidx[a] for s, a in sa.items()},
+            "Q": {str(i): {str(aidx[a]): fj(res.Q[sl[i]][a]) for a in mdp.actions(sl[i])} for i in keys},
+            "policy": [[[aidx[a], fj(p)] for a, p in res.policy.action_dist(sl[i]).items()] for i in range(n)],
             "initial_value": fj(res.initial_value),
             "converged_attr": (str(res.converged) if hasattr(res, "converged") else "missing"),
-            "trials": L["counters"]["trials"], "steps": L["counters"]["steps"],
+            "trials": L["ntrials"], "steps": L["counters"]["steps"],
             "ops": L["ops"], "ops_overflow": L["overflow"],
         })
     if "chain" in case:
